@@ -91,7 +91,7 @@ class PoolObligations:
         self.log = log
 
     def find(self, name, nargs):
-        fs = [f for f in self.prog.find(name, nargs) if "pool" in f.name and "{closure" not in f.name]
+        fs = [f for f in self.prog.find(name, nargs) if "pool" in f.name and "{closure" not in f.name and "isomer_erbium_verif" not in f.name]
         if len(fs) != 1:
             raise Unsupported(f"function {name}/{nargs} not found uniquely in the MIR dump ({[f.name for f in fs]})")
         return fs[0]
